@@ -6,7 +6,7 @@ namespace mc {
 
 enum AlphaBits : unsigned {
     A_ADDV = 1, A_ADDE = 2, A_ADDF = 4, A_ADDC = 8, A_SET = 16, A_DEL = 32, A_SWAP = 64, A_GC = 128, A_CLEAR = 256,
-    A_MODE = 512, A_BU = 1024, A_PROP = 2048, A_ADDFHE = 4096, A_ADDCV = 8192, A_SWAPFEW = 16384,
+    A_MODE = 512, A_BU = 1024, A_PROP = 2048, A_ADDFHE = 4096, A_ADDCV = 8192, A_SWAPFEW = 16384, A_GCOP = 32768, A_COLLAPSE = 65536, A_PERM = 131072,
     A_FULL = A_ADDV | A_ADDE | A_ADDF | A_ADDC | A_SET | A_DEL | A_SWAP | A_GC | A_CLEAR | A_MODE | A_BU | A_ADDFHE,
     A_RESTRICTED = A_DEL | A_SWAP | A_GC | A_MODE | A_BU,
     A_DELETION = A_ADDV | A_ADDE | A_ADDF | A_ADDC | A_DEL | A_GC | A_CLEAR | A_MODE,
@@ -224,6 +224,24 @@ inline std::vector<Op> menu(const Sys &s, const Bf &bf, unsigned alpha, const Ca
         r.push_back(Op(FBU, {!m.has_face_bottom_up_incidences()}));
     }
     if ((alpha & A_PROP) && s.cfg.props && !s.late_created) r.push_back(Op(PROP_NEW, {}));
+    if (alpha & A_GCOP) {
+        // every set of <= caps.lf marks over all live entities of any kind x every applicable collection mode
+        std::vector<int> ents;
+        for (int v : lv) ents.push_back(v);
+        for (int e : le) ents.push_back(1000 + e);
+        for (int f : lf) ents.push_back(2000 + f);
+        for (int c : lc) ents.push_back(3000 + c);
+        std::vector<int> modes;
+        if (m.deferred_deletion_enabled()) { modes.push_back(0); modes.push_back(1); }
+        for (int k = 2; k <= 5; ++k) modes.push_back(k);
+        std::vector<int> cur;
+        std::function<void(size_t)> rec = [&](size_t start) {
+            for (int mode : modes) { std::vector<int> a{mode}; a.insert(a.end(), cur.begin(), cur.end()); r.push_back(Op(STATUS_GC, a)); }
+            if ((int)cur.size() == caps.lf) return;
+            for (size_t i = start; i < ents.size(); ++i) { cur.push_back(ents[i]); rec(i + 1); cur.pop_back(); }
+        };
+        rec(0);
+    }
     return r;
 }
 
